@@ -61,7 +61,9 @@ def dollar_quote_literal(text: str) -> str:
     quote = '$$'
     qq = 0
 
-    while quote in text:
+    # The closing delimiter must not be completed early by the text
+    # itself, e.g. "a$" + "$$" must not read as "a" followed by "$".
+    while quote in text + quote[:-1]:
         if qq % 16 < 10:
             qq += 10 - qq % 16
 
